@@ -99,6 +99,32 @@ def initial_pool():
     return m, owned
 
 
+def mixed_pool():
+    """second pool (own pass): operands whose quantity holds two units of one type under two categories
+    (only obtainable directly), with partners they can be added to and multiplied with"""
+    from collections import OrderedDict
+
+    from barril.units import Quantity
+
+    owned = []
+
+    def own(name, c):
+        owned.append((name, c))
+        return c
+
+    mixq = lambda: Quantity.CreateDerived(OrderedDict([("length", ["m", 1]), ("depth", ["cm", 1])]))  # noqa: E731
+    m = []
+    m.append(("s_mix", Scalar(mixq(), 2.0)))
+    m.append(("s_md", Scalar(2.5, "m", "length") * Scalar(1.0, "m", "depth")))
+    m.append(("s_s", Scalar(4.0, "s", "time")))
+    m.append(("s_cm", Scalar(300.0, "cm", "length")))
+    m.append(("a_mix_list", Array(mixq(), own("list of a_mix_list", [2.0, 4.0, 6.0]))))
+    m.append(("a_mix_nd", Array(mixq(), own("ndarray of a_mix_nd", np.array([1.0, 3.0, 5.0])))))
+    m.append(("a_md_nd", Array(own("ndarray of a_md_nd(m)", np.array([1.0, 2.0, 3.0])), "m", "length") * Array(own("ndarray of a_md_nd(depth)", np.array([1.0, 1.0, 2.0])), "m", "depth")))
+    m.append(("f_mix", FixedArray(3, mixq(), own("tuple of f_mix", (1.0, 2.0, 3.0)))))
+    return m, owned
+
+
 ALT = {"length": "km", "time": "min", "temperature": "degF"}
 
 
@@ -235,8 +261,8 @@ def binary_ops(a, b):
 class History:
     """One history executed on a fresh pool."""
 
-    def __init__(self):
-        self.members, self.owned = initial_pool()
+    def __init__(self, pool=None):
+        self.members, self.owned = (pool or initial_pool)()
         self.snaps = [snap(o) for _n, o in self.members]
         self.owned_snaps = [deep(c) for _n, c in self.owned]
         self.steps = []
@@ -335,6 +361,8 @@ REP = [0, 1, 2, 6, 8, 12, 15]  # partner representatives for chained binary oper
 
 
 def _task(task):
+    if task[0] == "mixed":
+        return _mixed_task(task[1])
     depth, firsts = task
     part = Part()
     with worlds.world("posc"):
@@ -375,6 +403,38 @@ def _task(task):
     return part
 
 
+def _mixed_task(shard):
+    """Every history of length <= 2 on the second (mixed-unit) pool, no partner restriction."""
+    part = Part()
+    k, nshards = shard
+    with worlds.world("posc"):
+        h0 = History(mixed_pool)
+        firsts = [(n, a) for n, _f, a, _e in enumerate_ops(h0)][k::nshards]
+        for opname, args in firsts:
+            h = History(mixed_pool)
+            ops1 = [o for o in enumerate_ops(h, involve=set(args)) if o[0] == opname and o[2] == tuple(args)]
+            name, f, a, exp = ops1[0]
+            r1 = h.step(part, name, f, a, exp)
+            part.count("transitions")
+            part.count("mixed_pool_transitions")
+            involve = set(args) | ({r1} if r1 is not None else set())
+            seconds = [(n2, a2) for n2, _f2, a2, _e2 in enumerate_ops(h, involve=involve)]
+            for n2, a2 in seconds:
+                h2 = History(mixed_pool)
+                for name1, f1, aa1, exp1 in enumerate_ops(h2, involve=set(args)):
+                    if name1 == opname and aa1 == tuple(args):
+                        h2.step(None, name1, f1, aa1, exp1)
+                        break
+                for name2, f2, aa2, exp2 in enumerate_ops(h2, involve=set(a2)):
+                    if name2 == n2 and aa2 == a2:
+                        h2.step(part, name2, f2, aa2, exp2)
+                        part.count("transitions")
+                        part.count("chained")
+                        part.count("mixed_pool_transitions")
+                        break
+    return part
+
+
 def replay(steps):
     """steps: ['op(name, name)', ...] as printed in a signature."""
     part = Part()
@@ -412,7 +472,7 @@ def run(ctx):
         assert len(h.members) == N0
         firsts = [(name, a) for name, _f, a, _e in enumerate_ops(h)]
         kinds = sorted({name for name, _a in firsts})
-    run_sharded(ctx, _task, [(depth, c) for c in chunks(firsts, ctx.procs * 6)])
+    run_sharded(ctx, _task, [(depth, c) for c in chunks(firsts, ctx.procs * 6)] + [("mixed", (k, 24)) for k in range(24)])
     c = ctx.part.counters
     ctx.level = "model_checking"
     ctx.states = len(firsts) + c.get("chained", 0)
@@ -421,7 +481,7 @@ def run(ctx):
     ctx.nontrivial = c.get("chained", 0)
     ctx.rule = (
         "all histories of length <= %d of public operations on a fresh pool of %d value objects (+ %d caller-owned containers), later operations chained to results/operands of earlier ones; "
-        "after every transition every pool member and container is compared with its snapshot; non-trivial = transitions that operate on a result or operand of an earlier step; outcomes = distinct (operation, result class / exception)"
+        "a second pool of 8 objects whose quantity holds two units of one quantity type (and partners) explored to depth 2 without partner restriction; after every transition every pool member and container is compared with its snapshot; non-trivial = transitions that operate on a result or operand of an earlier step; outcomes = distinct (operation, result class / exception)"
         % (depth, N0, len(h.owned))
     )
     ctx.coverage_extra = {"max_depth": depth, "first_level_operations": len(firsts), "operation_kinds": kinds, "failed_operations": c.get("failed_operations", 0), "alphabet": {"pool": [n for n, _o in h.members], "owned_containers": [n for n, _c in h.owned]}}
